@@ -22,6 +22,7 @@ const (
 var (
 	errMalformed       = errors.New("malformed rtpdump")
 	errPayloadTooLarge = errors.New("rtpdump: payload does not fit the 16-bit record length")
+	errOffsetRange     = errors.New("rtpdump: offset does not fit 32 bits of milliseconds")
 )
 
 // Header is the binary header at the top of the RTPDump file. It contains
@@ -94,6 +95,9 @@ type Packet struct {
 func (p Packet) Marshal() ([]byte, error) {
 	if len(p.Payload) > math.MaxUint16-pktHeaderLen {
 		return nil, errPayloadTooLarge
+	}
+	if p.Offset < 0 || p.Offset/time.Millisecond > math.MaxUint32 {
+		return nil, errOffsetRange
 	}
 
 	packetLength := len(p.Payload)
